@@ -73,6 +73,13 @@ Theorem C18_frame_extract : forall groups f g,
   = Some (concat g).
 Proof. exact frame_extract. Qed.
 
+(** Number of Frames is optional for single-frame images: without it the object holds ONE frame,
+    over however many fragments (encapsulate_single_frame with a fragment size) it is split. *)
+Theorem C18_frame_extract_single : forall g,
+  g <> [] ->
+  frame_pixel_data None (bot_spec 0 [g]) (concat [g]) 0 = Some (concat g).
+Proof. exact frame_extract_no_nframes. Qed.
+
 (** Non-vacuity: encapsulate(vec![vec![20,30,40], vec![50,60,70,80]]) (the crate's own test input) *)
 Example C18_nonvacuous :
   encapsulate [[20; 30; 40]; [50; 60; 70; 80]] = Ok ([0; 12], [[20; 30; 40; 0]; [50; 60; 70; 80]]) /\
@@ -130,3 +137,4 @@ Print Assumptions C18_bot_shape.
 Print Assumptions C18_bot_encode.
 Print Assumptions C18_total_length.
 Print Assumptions C18_frame_extract.
+Print Assumptions C18_frame_extract_single.
